@@ -17,7 +17,10 @@ End to end, on the object the user queries: `Traj.traj_eval` — the trajectory 
 (`initializePPoly` on the cumulative times and the stacked blocks, then `findSegment` + Horner evaluation) evaluates at any
 time `t`, coordinate by coordinate, to the polynomial of the segment containing `t` at local time `t − t_i`; and
 `Traj.traj_at_knot` — it passes through waypoint `i` at knot time `i`, for every order, dimension, N ≥ 1 and all positive
-durations (`specIdx_knot`, `specIdx_last`, `colOf_interp`).
+durations (`specIdx_knot`, `specIdx_last`, `colOf_interp`); `Traj.traj_eval_k` — the same for every derivative order
+(`evaluate(t, k)` is the `k`-th derivative of that polynomial); `Traj.traj_boundary` — the derivatives `1 … s−1` of the
+published trajectory at the first / last knot are the start / end boundary states (velocity; acceleration for quintic and
+septic; jerk for septic).
 -/
 open ST ST.Cubic
 
